@@ -1746,6 +1746,7 @@ fn c10_base(r: &mut Prng) -> C10Plan {
         victim_shutdown: r.chance(1, 3),
         flood: 0,
         silent_after_garbage: r.chance(1, 2),
+        coop: r.chance(1, 6),
     }
 }
 impl Family for C10Family {
@@ -1910,6 +1911,7 @@ impl Family for C13Family {
             peer_yields: r.below(4),
             bufreader: if r.chance(1, 3) { Some(*r.pick(&[1usize, 7, 64, 8192])) } else { None },
             late_end: if r.chance(1, 3) { 1 + r.below(2) as u8 } else { 0 },
+            coop: r.chance(1, 5),
         };
         (serde_json::to_value(plan).expect("plan"), seed)
     }
